@@ -36,6 +36,25 @@ Definition check_cut : P (list Z) :=
     ((e =? eCtx) || (complete && (e =? rep_err (final_err inp)))) in
   ret (code_if j2 2)%list.
 
+(* tag 5: size-threshold files ("wide" ids: object j of block b is b*100000 + j + 1, dense nodes only) *)
+Fixpoint mk_input_wide (b : nat) (its : list (Z * Z)) : input :=
+  match its with
+  | [] => []
+  | (k, x) :: r =>
+      (if k =? 0 then IBlock (map (fun j => Z.of_nat b * 100000 + Z.of_nat j + 1) (seq 0 (Z.to_nat x)))
+       else if k =? 1 then IBad x else IRdErr x) :: mk_input_wide (S b) r
+  end.
+
+Definition check_wide : P (list Z) :=
+  n <- pnat ;; resume <- pbool ;; its <- plist (ppair pint pint) ;; ids <- plist pint ;; e <- pint ;;
+  let inp := mk_input_wide 0 its in
+  let c := cfg_of_source n inp resume 0 in
+  let fuel := (4 * length its + 4 * n + 60)%nat in
+  let '(s, fin) := scan_all c fuel (S (length ids + 2)) (init c) in
+  let j1 := fin && list_eqb Z.eqb (delivered s) ids && (err_value s =? e) in
+  let j2 := wf_cfg c && list_eqb Z.eqb ids (expected inp) && (e =? rep_err (final_err inp)) in
+  ret (code_if j1 1 ++ code_if j2 2)%list.
+
 (* tag 3: "rich" files: blocks are given as lists of content tokens *)
 Definition check_rich : P (list Z) :=
   n <- pnat ;; resume <- pbool ;; blocks <- plist (plist ptok) ;;
@@ -52,7 +71,7 @@ Definition check_case (t : toks) : list Z :=
   match t with
   | tag :: rest =>
       let p := if tag =? 2 then check_full else if tag =? 4 then check_cut
-               else if tag =? 6 then check_rich else pfail in
+               else if tag =? 6 then check_rich else if tag =? 10 then check_wide else pfail in
       match parse_all p rest with Some codes => codes | None => [0] end
   | [] => [0]
   end.
